@@ -57,6 +57,8 @@ func (a *chunkError) unmarshal(raw []byte) error {
 		return fmt.Errorf("%w, actually is %s", ErrChunkTypeNotCtError, a.typ.String())
 	}
 
+	// only walk the causes inside this chunk, not the chunks bundled after it
+	raw = raw[:chunkHeaderSize+len(a.raw)]
 	offset := chunkHeaderSize
 	for len(raw)-offset >= 4 {
 		e, err := buildErrorCause(raw[offset:])
